@@ -305,6 +305,23 @@ def run(report, p):
                         if any(is_call(s2, "builtin:sorted") or (s2[0] == "op" and s2[1].startswith("collect")) for s2 in subterms(o)):
                             okname = True
                     r5.check(okname, dh, t.ast, f"the exit-12 decision additionally depends on `{x.id}`, which is neither the failure bookkeeping nor the list of verified formats: detected failures can be swallowed", construct=f"exit-12 guard uses {x.id}")
+        # "all formats failed" is a statement about counts / sets: a comparison of the failure map as a SEQUENCE depends on the order in which failures were
+        # discovered (dict insertion order), which differs from any fixed order as soon as the first failing record is of another format
+        for t in tests:
+            for cmp_ in [x for x in ast.walk(t.ast) if isinstance(x, ast.Compare) and all(isinstance(o_, (ast.Eq, ast.NotEq)) for o_ in x.ops)]:
+                sides = [cmp_.left] + list(cmp_.comparators)
+                if not any("fail" in x.id for s_ in sides for x in ast.walk(s_) if isinstance(x, ast.Name)):
+                    continue
+                def _unordered(s_, others):
+                    if isinstance(s_, ast.Constant):
+                        return True
+                    if isinstance(s_, ast.Call) and norm(s_.func) in ("len", "set", "frozenset", "sorted", "sum", "bool"):
+                        return True
+                    if isinstance(s_, ast.Call) and isinstance(s_.func, ast.Attribute) and s_.func.attr == "keys" and all((isinstance(o_, ast.Call) and (norm(o_.func) in ("set", "frozenset") or (isinstance(o_.func, ast.Attribute) and o_.func.attr == "keys"))) for o_ in others):
+                        return True
+                    return False
+                bad_sides = [norm(s_) for i_, s_ in enumerate(sides) if not _unordered(s_, sides[:i_] + sides[i_ + 1:])]
+                r5.check(not bad_sides, dh, cmp_, f"the exit-12 decision compares the failure bookkeeping as a sequence ({bad_sides}): the result depends on the order in which the failures were found, not on which formats failed", construct=f"exit-12 guard compares a sequence: {norm(cmp_)[:80]}")
         st = g.by_ast.get(id(_stmt(c)))
         var = _stmt(c).targets[0].id if isinstance(_stmt(c), ast.Assign) and isinstance(_stmt(c).targets[0], ast.Name) else None
         reaches = any(isinstance(r.ast.exc, ast.Name) and r.ast.exc.id == var for r in raises) if var else isinstance(_stmt(c), ast.Raise)
